@@ -169,6 +169,31 @@ def find_model_by_fixing(assumptions, goal, seed=0, trials=24, timeout_ms=3000):
         fixed_ids.add(best.get_id())
         if len(fixed) > 400:
             return None
+    # first candidate: values of the fixed variables in a model of the product-abstracted query
+    cand = None
+    try:
+        cache = {}
+        sa = z3.Solver()
+        sa.set("timeout", 2000)
+        for a in assumptions:
+            sa.add(abstract_mul(a, cache))
+        sa.add(z3.Not(abstract_mul(goal, cache)))
+        if sa.check() == z3.sat:
+            cand = sa.model()
+    except z3.Z3Exception:
+        cand = None
+    if cand is not None:
+        s = z3.Solver()
+        s.set("timeout", timeout_ms)
+        for a in assumptions:
+            s.add(a)
+        s.add(z3.Not(goal))
+        for c in fixed:
+            v = cand.eval(c, model_completion=True)
+            if z3.is_rational_value(v) or z3.is_int_value(v):
+                s.add(c == v)
+        if s.check() == z3.sat:
+            return s.model()
     rng = random.Random(seed)
     pool = ["0", "1", "-1", "2", "-2", "1/2", "-1/2", "3", "1/3", "-3", "1/4", "3/2", "-3/2", "5", "1/10"]
     for trial in range(trials):
@@ -185,6 +210,32 @@ def find_model_by_fixing(assumptions, goal, seed=0, trials=24, timeout_ms=3000):
     return None
 
 
+def abstract_ufs(e, cache, names):
+    """Replace every application of a real-valued uninterpreted function by a fresh constant (same term ->
+    same constant).  This only forgets functional consistency, so validity of the result implies validity
+    of the original; it turns UF+NRA queries into pure polynomial arithmetic, which nlsat decides quickly."""
+    k = e.get_id()
+    if k in cache:
+        return cache[k]
+    if z3.is_quantifier(e) or not z3.is_app(e) or e.num_args() == 0:
+        cache[k] = e
+        return e
+    args = [abstract_ufs(a, cache, names) for a in e.children()]
+    d = e.decl()
+    if d.kind() == z3.Z3_OP_UNINTERPRETED and z3.is_real(e):
+        key = d.name() + "(" + ",".join(str(a.get_id()) for a in args) + ")"
+        if key not in names:
+            names[key] = z3.Real("uf!%d" % len(names))
+        r = names[key]
+    else:
+        try:
+            r = d(*args)
+        except Exception:
+            r = e
+    cache[k] = r
+    return r
+
+
 def check_valid(assumptions, goal, timeout_ms=10000, use_cvc5=True, want_model=True, tactic=None, abstract_first=True):
     """Is (/\\ assumptions) => goal valid?  Returns dict(status, backend, seconds, model?)."""
     t0 = time.time()
@@ -198,6 +249,20 @@ def check_valid(assumptions, goal, timeout_ms=10000, use_cvc5=True, want_model=T
             sa.add(z3.Not(abstract_mul(goal, cache)))
             if sa.check() == z3.unsat:
                 return {"status": "proved", "backend": "z3-%s(products abstracted)" % z3.get_version_string(),
+                        "seconds": round(time.time() - t0, 3)}
+        except z3.Z3Exception:
+            pass
+    if abstract_first and tactic is None:
+        try:
+            cache, names = {}, {}
+            su = z3.Solver()
+            su.set("timeout", int(min(timeout_ms, 8000)))
+            has_q = False
+            for a in assumptions:
+                su.add(abstract_ufs(a, cache, names))
+            su.add(z3.Not(abstract_ufs(goal, cache, names)))
+            if names and su.check() == z3.unsat:
+                return {"status": "proved", "backend": "z3-%s(real UF terms as constants)" % z3.get_version_string(),
                         "seconds": round(time.time() - t0, 3)}
         except z3.Z3Exception:
             pass
